@@ -1,3 +1,33 @@
-From CRS Require Import Lib.Bytes Model.Broker.
-Theorem c03_placeholder : cin init = None.
-Proof. reflexivity. Qed.
+(** C03 — shell output reaches the operator byte-exact, in order.
+    PARTIAL: the model forwards every read within its step (unbounded operator
+    channel); the bounded queues of proxyOut (2 internal slots, the operator
+    channel's capacity) are exercised by the harness's stalled-terminal cases
+    and judged by the monitor, not proved. *)
+From CRS Require Import Lib.Bytes Model.Broker Proofs.BrokerProofs Props.C01.
+Open Scope N_scope.
+
+(** One read of the attached output stream: the bytes are displayed exactly
+    once, unmodified (zero-length reads display nothing), BEFORE any closure
+    notice of the step — also when they come together with the terminal error —
+    and are logged exactly once. *)
+Theorem c03_read_displayed_once : forall s id data e x,
+  get s id = Some x -> st_ph x = PAttached -> sd_dir (st_d x) = DOut ->
+  exists tail ltail,
+    o_och (snd (step s (OData id data e))) = (match data with [] => [] | _ => [OPlain data] end) ++ tail /\
+    (forall d, ~ In (OPlain d) tail) /\
+    o_log (snd (step s (OData id data e))) = (match data with [] => [] | _ => [Log (LIO data) id] end) ++ ltail /\
+    (forall d i, ~ In (Log (LIO d) i) ltail).
+Proof. exact data_step. Qed.
+
+(** Nothing else is ever displayed: output appears only in a read step of the
+    stream holding the output slot, and is that read's data. *)
+Theorem c03_nothing_else_displayed : forall s o, Tab s ->
+  forall d, In (OPlain d) (o_och (snd (step s o))) ->
+  exists id e sd, o = OData id d e /\ cout s = Some (id, sd).
+Proof. exact plain_comes_from_cout. Qed.
+
+Example c03_example :
+  let ops := [OAdmit 1 (mkd DOut (KUni [97]) 1); OData 1 [1; 2] None; OData 1 [] None; OData 1 [3] (Some RUnexpectedEof);
+              OData 1 [4] None] in
+  map o_och (snd (run ops)) = [[ONote NConnected 1]; [OPlain [1; 2]]; []; [OPlain [3]; ONote NClosed 1]; []].
+Proof. vm_compute. reflexivity. Qed.
